@@ -265,6 +265,9 @@ TEXT_PARSERS = {
     # parser of document-controlled text -> exceptions it raises for a str argument (CPython 3.12 re/_parser.py, ipaddress.py)
     "re.compile": ("re.error", "OverflowError", "RecursionError"),
     "ip_network": ("ValueError",), "ipaddress.ip_network": ("ValueError",),
+    # the pyparsing condition grammar: ParseException for bad syntax, RecursionError for deep nesting (each applied filter
+    # and add_condition item adds a parenthesis level)
+    "_parse_condition_string": ("ParseException", "RecursionError"),
 }
 
 
@@ -272,12 +275,15 @@ def r1b_text_parsers(ctx) -> None:
     from ..raises import caught_locally
     r, prog = ctx.r, ctx.prog
     n = 0
-    for f in prog.functions_in("sigma.types", "sigma.modifiers", "sigma.correlations"):
+    for f in prog.functions_in("sigma.types", "sigma.modifiers", "sigma.correlations", "sigma.conditions"):
         for c in walk_no_nested(f.node):
             if not isinstance(c, ast.Call) or call_name(c) not in TEXT_PARSERS or not c.args or isinstance(c.args[0], ast.Constant):
                 continue
             n += 1
             loc = f"{f.module.relpath}:{c.lineno}"
+            if f.qual == "sigma.conditions.ConditionSelector.resolve_referenced_detections" and unparse(c.args[0]).replace('"', "'") == "self.pattern.replace('*', '.*')":
+                r.ok("C07.R1", f.qual, "re.compile of a selector pattern: its alphabet is letters, digits, '_', '-' and '*' (C02.R4), so the expression is always valid", loc)
+                continue
             missing = []
             for exc in TEXT_PARSERS[call_name(c)]:
                 h = caught_locally(prog, f, c, exc)
@@ -287,8 +293,8 @@ def r1b_text_parsers(ctx) -> None:
                 r.violation("C07.R1", f.qual, f"{short(c, 60)}: {', '.join(missing)} not converted", f"{call_name(c)}() parses text taken from the rule document and can raise {missing} for it (e.g. a repetition count a{{99999999999999}} → OverflowError); no enclosing handler turns that into a Sigma error, so a non-Sigma exception leaves rule loading", loc)
             else:
                 r.ok("C07.R1", f.qual, f"{short(c, 50)}: {', '.join(TEXT_PARSERS[call_name(c)])} → Sigma error", loc)
-    if n < 2:
-        raise AnalysisError(f"only {n} parser calls on document text found in the value types (2 confirmed: re.compile, ip_network)")
+    if n < 3:
+        raise AnalysisError(f"only {n} parser calls on document text found (3 confirmed: re.compile, ip_network, the condition parser)")
 
 
 def r6_yaml_documents_checked(ctx) -> None:
